@@ -74,7 +74,8 @@ class WriterHist(Engine):
     nruns = {"quick": 2500, "thorough": 300000}
     budgets = {"quick": 40.0, "thorough": 540.0}
     rule = (
-        "script = problem whose identifiers are adversarial (case variants of one another, PDDL keywords of the general / "
+        "script = problem whose identifiers are adversarial (quantified conditions whose bound variables are named like objects or "
+        "parameters of their own type; case variants of one another, PDDL keywords of the general / "
         "temporal / PDDL3 sets, names with symbols, blanks and leading digits, names equal to the mangled form of another "
         "name; optionally the same name in two categories) + 6-20 calls on ONE PDDLWriter in seeded order (get_domain, "
         "get_problem, get_plan, write_domain / write_problem / write_plan to a file that may fail with ENOSPC/EIO at write k "
